@@ -147,6 +147,13 @@ def w_rules(P, E):
         for bb in aw2:
             if bb in dblocks:
                 pass  # acquisitions are block terminators; statements of the block precede them
+        # W6: the terminal must *wait* for the waker slot (poll holds it across test+store): a try-lock skips the wake
+        for bb, a in aw2.items():
+            if "try_" in a["call"].path:
+                r.violate(("W6", hb.nid, "%s callback try-locks the waker" % role),
+                          "the terminal callback reads the waker with %s: while poll() holds the slot (between its done test and "
+                          "its waker store) the try-lock fails, the wake is skipped and the future never resolves"
+                          % a["call"].path.split("::")[-1], body=hb, line=a["line"])
         # W5
         for bb in aw2:
             if held2.get(bb, set()) & (set(ad2) | set(ae2)):
